@@ -488,6 +488,7 @@ static uint64_t *c_forks;
 /* -i formats in force for the next run_expr()/run_dgrep() (NULL: none), as dgrep's main() sets them */
 static char *cur_fmt[2];
 static size_t cur_nfmt;
+static const char *cur_loc;	/* --from-locale for run_dgrep() */
 
 static void
 run_expr(const char *expr, char lines[][40], int nlines, struct xres *r)
@@ -1234,7 +1235,7 @@ static const struct ratom ratoms[NRATOM] = {
 	{"time constant", "", "10:00:00", 0, 1, 0, -1, "time constant"},
 	/* the reference day written exactly like the lines (with -i: in that format) */
 	{"constant in the lines' own notation", "", NULL, 1, 0, 0, -2, "constant written in the lines' own notation"},
-	{"%db", "%db", "1", 1, 0, 0, -1, "specifier %db"},
+	{"%db", "%db", "3", 1, 0, 0, -1, "specifier %db"},
 	{"%b name", "%b", "\"Mar\"", 1, 0, 1, -1, "specifier %b with a name"},
 };
 
@@ -1273,7 +1274,7 @@ ratom_cmp(int ai, int rp, int i)
 			a = p->dnum, b = q->dnum;
 		}
 		break;
-	case RA_DB: a = p->bd, b = 1; break;
+	case RA_DB: a = p->bd, b = 3; break;	/* 2012-03-05 is the 3rd business day, no day of the grid is a 3rd of the month */
 	case RA_B: a = p->m, b = 3; break;
 	default:
 		a = p->sec, b = 36000L;
@@ -1281,6 +1282,9 @@ ratom_cmp(int ai, int rp, int i)
 	}
 	return a < b ? -1 : a > b;
 }
+
+static int run_dgrep(const char *expr, int inv, const char *infile, char *out, size_t osz, int *sig);
+static int repr_cli;	/* judge the dgrep binary instead of the in-process pipeline */
 
 static int
 do_repr(int rp, int ai, int oi, int replay)
@@ -1298,8 +1302,28 @@ do_repr(int rp, int ai, int oi, int replay)
 	EX_CTR(c_sk2, "skipped:a date-time constant against lines without a time of day (not stated)");
 	EX_CTR(c_sk3, "skipped:a date constant against the same day with a time of day (equal or midnight: not stated)");
 
+	const char *val = a->val;
+	char own[40];
+
 	if (a->names && o->ordering) {
 		return 0;
+	}
+	if ((reprs[rp].loc != NULL) != (repr_cli != 0)) {
+		/* --from-locale: dgrep's main() decides when the locale is set, so only the binary is judged */
+		return 0;
+	}
+	if (ai == RA_OWN) {
+		if (rp == RP_TIME || rp == RP_COMPACT_RUN) {
+			return 0;
+		}
+		repr_line(own, sizeof(own), rp, RREF);
+		val = own;
+		lacks = 0;
+	} else if (ai == RA_B && reprs[rp].loc) {
+		val = "\"M\xc3\xa4r\"";
+	} else if (ai == RA_A && reprs[rp].loc) {
+		/* names in the expression are input as well: Donnerstag */
+		val = "\"Do\"";
 	}
 	if (lacks && a->needs_date && a->needs_time) {
 		/* date-time constants against date-only or time-only lines */
@@ -1310,7 +1334,7 @@ do_repr(int rp, int ai, int oi, int replay)
 		++*c_sk1;
 		return 0;
 	}
-	snprintf(expr, sizeof(expr), "%s%s%s", a->lhs, o->txt, a->val);
+	snprintf(expr, sizeof(expr), "%s%s%s", a->lhs, o->txt, val);
 	for (int i = 0; i < NRDAY; i++) {
 		int c;
 		repr_line(lines[i], sizeof(lines[i]), rp, i);
@@ -1333,7 +1357,44 @@ do_repr(int rp, int ai, int oi, int replay)
 		cur_fmt[0] = fb;
 		cur_nfmt = 1;
 	}
-	run_expr(expr, lines, NRDAY, &r);
+	if (!repr_cli) {
+		run_expr(expr, lines, NRDAY, &r);
+	} else {
+		/* the binary: which of the lines come out */
+		char fin[512], out[1024];
+		const char *rundir = getenv("VERIF_RUNDIR");
+		FILE *f;
+		int sig = 0, rc;
+		const char *op;
+		memset(&r, 0, sizeof(r));
+		snprintf(fin, sizeof(fin), "%s/c17r.%d.in", rundir ? rundir : "/tmp", (int)getpid());
+		if ((f = fopen(fin, "w")) == NULL) {
+			return 0;
+		}
+		for (int i = 0; i < NRDAY; i++) {
+			fprintf(f, "%s\n", lines[i]);
+		}
+		fclose(f);
+		cur_loc = reprs[rp].loc;
+		rc = run_dgrep(expr, 0, fin, out, sizeof(out), &sig);
+		cur_loc = NULL;
+		unlink(fin);
+		r.stage = ST_DONE;
+		r.died = sig != 0;
+		r.parse_rc = (rc == 1 && out[0] == '\0') ? -1 : 0;
+		op = out;
+		for (int i = 0; i < NRDAY && *op; i++) {
+			size_t l = strlen(lines[i]);
+			if (!strncmp(op, lines[i], l) && op[l] == '\n') {
+				r.sel |= 1U << i;
+				op += l + 1;
+			}
+		}
+		if (*op) {
+			/* output that is not a subsequence of the input */
+			r.sel = ~0U;
+		}
+	}
 	cur_nfmt = 0;
 	++*c_eval;
 	++*c_rep;
@@ -1366,19 +1427,24 @@ do_repr(int rp, int ai, int oi, int replay)
 	if (kind == NULL) {
 		return 0;
 	}
-	if (!strcmp(kind, "the date in the line is not found")) {
+	if (repr_cli) {
+		snprintf(key, sizeof(key), "repr (dgrep binary): %s | %s | %s", kind, reprs[rp].cls, a->cls);
+	} else if (!strcmp(kind, "the date in the line is not found")) {
 		/* nothing to do with the atom */
 		snprintf(key, sizeof(key), "repr: %s | %s", kind, reprs[rp].label);
-	} else if (ai == RA_G || ai == RA_YY) {
+	} else if (ai == RA_G || ai == RA_YY || ai == RA_DB) {
 		/* folded into the 4-digit calendar year whatever the line */
 		snprintf(key, sizeof(key), "repr: %s | %s", kind, a->cls);
+	} else if (a->cal == -2) {
+		snprintf(key, sizeof(key), "repr: %s | %s | %s", kind, reprs[rp].cls, a->cls);
 	} else if (a->cal >= 0) {
 		snprintf(key, sizeof(key), "repr: %s | %s | %s written in %s calendar", kind, reprs[rp].cls, a->cls, a->cal == reprs[rp].cal ? "the same" : "another");
 	} else {
 		snprintf(key, sizeof(key), "repr: %s | %s | %s", kind, reprs[rp].cls, a->cls);
 	}
 	snprintf(cas, sizeof(cas), "repr %d %d %d", rp, ai, oi);
-	snprintf(cmd, sizeof(cmd), "printf '%%s\\n' '%s' '%s' '%s' '%s' '%s' '%s' '%s' | dgrep %s%s%s'%s'", lines[0], lines[1], lines[2], lines[3], lines[4], lines[5], lines[6],
+	snprintf(cmd, sizeof(cmd), "printf '%%s\\n' '%s' '%s' '%s' '%s' '%s' '%s' '%s' | dgrep %s%s%s%s%s'%s'", lines[0], lines[1], lines[2], lines[3], lines[4], lines[5], lines[6],
+		 reprs[rp].loc ? "--from-locale " : "", reprs[rp].loc ? reprs[rp].loc : "", reprs[rp].loc ? " " : "",
 		 reprs[rp].fmt ? "-i '" : "", reprs[rp].fmt ? reprs[rp].fmt : "", reprs[rp].fmt ? "' " : "", expr);
 	ex_viol(key, (double)(ai * 6 + oi), cas, cmd, "'%s' on the days 2012-02-28, 02-29, 03-01, 03-02, 03-05, 12-31, 2013-01-01 written as %s (e.g. '%s'): %s; selected %02x, "
 		"expected %02x of the judged lines %02x (bit i = day i)", expr, reprs[rp].label, lines[RREF], kind, r.sel & judged, want, judged);
@@ -1397,7 +1463,24 @@ do_bind_repr(int rp, int ai, int oi, int inv, int replay)
 	if (a->names && aops[oi].ordering) {
 		return 0;
 	}
-	snprintf(expr, sizeof(expr), "%s%s%s", a->lhs, aops[oi].txt, a->val);
+	if (reprs[rp].loc) {
+		/* judged against the oracle directly */
+		int rc2;
+		repr_cli = 1;
+		rc2 = inv ? 0 : do_repr(rp, ai, oi, replay);
+		repr_cli = 0;
+		return rc2;
+	}
+	if (ai == RA_OWN) {
+		char own[40];
+		if (rp == RP_TIME || rp == RP_COMPACT_RUN) {
+			return 0;
+		}
+		repr_line(own, sizeof(own), rp, RREF);
+		snprintf(expr, sizeof(expr), "%s%s", aops[oi].txt, own);
+	} else {
+		snprintf(expr, sizeof(expr), "%s%s%s", a->lhs, aops[oi].txt, a->val);
+	}
 	for (int i = 0; i < NRDAY; i++) {
 		repr_line(lines[i], sizeof(lines[i]), rp, i);
 	}
@@ -1431,6 +1514,9 @@ run_dgrep(const char *expr, int inv, const char *infile, char *out, size_t osz, 
 		char io[96] = "";
 		for (size_t i = 0; i < cur_nfmt; i++) {
 			snprintf(io + strlen(io), sizeof(io) - strlen(io), "-i '%s' ", cur_fmt[i]);
+		}
+		if (cur_loc) {
+			snprintf(io + strlen(io), sizeof(io) - strlen(io), "--from-locale %s ", cur_loc);
 		}
 		snprintf(cmd, sizeof(cmd), "exec '%s/src/dgrep' %s%s'%s' < '%s' > '%s' 2>/dev/null", ex.tree, io, inv ? "-v " : "", expr, infile, fout);
 	}
@@ -1619,6 +1705,12 @@ main(int argc, char *argv[])
 	maxn = bind ? 3 : ex.thorough ? 5 : 4;
 	mk_pairs();
 	mk_rdays();
+	if (ex.tree) {
+		/* the locale table of the tree under test, as the test suite sets it */
+		char lf[1024];
+		snprintf(lf, sizeof(lf), "%s/data/locale", ex.tree);
+		setenv("LOCALE_FILE", lf, 1);
+	}
 	gen_stacked(0, 3);
 	for (int n = 1; n <= 3; n++) {
 		gen_stacked(0, n);
@@ -1674,7 +1766,7 @@ main(int argc, char *argv[])
 			"on the 2^n lines; its output must equal the lines the in-process pipeline (dexpr.c by inclusion, forked child per expression) selects, "
 			"resp. their complement, and the binary must die iff the in-process child died; plus the CLI's line semantics on a single atom "
 			"(lines unchanged and in input order, a line matches if any of its dates does, -v = complement incl. lines without a date)");
-		ex_meta("bound", "274 trees x 2 renderings (set A) + 96 trees with stacked negations (<= 2 leaves) x 2 renderings + 274 trees of leaf set C + 1176 representation cases + 1682 pairs of atoms, "
+		ex_meta("bound", "274 trees x 2 renderings (set A) + 96 trees with stacked negations (<= 2 leaves) x 2 renderings + 274 trees of leaf set C + 1530 representation cases + 1682 pairs of atoms, "
 			"each without and with -v (both tiers)");
 		ex_meta("binding", "dgrep binary of the same (plain) build vs the in-process pipeline");
 		{
@@ -1790,7 +1882,7 @@ main(int argc, char *argv[])
 		"Atom semantics: %d fields x %d operator spellings x plain/negated x lines at every distance -3..+3 from the constant, own keys (kind, operator, distance); "
 		"ordering operators on weekday/month names skipped (no order stated).", NAFIELD, NAOP);
 	ex_meta("bound", "trees with 1..%d leaves: %s (set A) + 1..4 leaves (set B) + 1..%d leaves (set C), x 2 renderings; blank-separated rendering up to 2 leaves; "
-		"stacked negations: all 4+96 trees up to 2 leaves, with 3 leaves %s; 1682 pairs; 14 representations x 14 atoms x 6 operators; %d atom cases x 7 distances",
+		"stacked negations: all 4+96 trees up to 2 leaves, with 3 leaves %s; 1682 pairs; 15 representations x 17 atoms x 6 operators; %d atom cases x 7 distances",
 		maxn, maxn == 5 ? "2+16+256+5120+114688" : "2+16+256+5120", ex.thorough ? 4 : 3,
 		ex.thorough ? "all 4608" : "the 640 with one doubled negation", NAFIELD * NAOP * 2);
 
